@@ -596,9 +596,16 @@ func (f *Func) callDirect(log hclog.Logger, argMap map[interface{}]reflect.Value
 	verifPoint("direct.enter", f)
 	// If we have FuncOnce enabled and we've been called before, return
 	// the result we have cached.
-	if f.once && f.onceResult != nil {
-		log.Trace("returning cached result, FuncOnce enabled")
-		return *f.onceResult
+	if f.once {
+		// Hold the lock for the whole call so that concurrent first uses
+		// wait for, and then share, a single execution.
+		f.onceMu.Lock()
+		defer f.onceMu.Unlock()
+
+		if f.onceResult != nil {
+			log.Trace("returning cached result, FuncOnce enabled")
+			return *f.onceResult
+		}
 	}
 
 	// Initialize the struct we'll be populating
